@@ -133,6 +133,16 @@ func nativeMixedErrBatch(r *nrec, rng *rand.Rand) {
 			items[i] = Item[int]{ID: strconv.Itoa(i), Data: i}
 		}
 		g := q.AddAll(items)
+		if round == 0 {
+			// nobody reads the stream until the batch is over: every failing item still finds its slot
+			if !within(20*time.Second, g.Wait) {
+				r.add("C07", "pool-disabled", "error batch of %d items (%d failing or panicking), stream unread: Wait did not return within 20 s — %d still pending, %d in flight", n, 2*n/3, w.NumPending(), w.NumProcessing())
+				r.add("C08", "batch-wait-blocked", "error batch of %d items, stream unread: Wait did not return within 20 s", n)
+				r.add("C05", "batch-wait-blocked", "error batch of %d items, stream unread: Wait did not return within 20 s", n)
+				r.add("C03", "hang", "error batch of %d items, stream unread: %d still pending, %d in flight after 20 s", n, w.NumPending(), w.NumProcessing())
+				continue
+			}
+		}
 		seen := map[string]int{}
 		ok := within(20*time.Second, func() {
 			for e := range g.Errs() {
